@@ -3,6 +3,7 @@
 R18.1 the run-scoped log handler acquired in Task.data is removed on every exit (normal and exceptional);
 R18.2 run info initialised before run, finished only after the result was processed (saved) normally;
 R18.3 the log file handler truncates and targets the log path;  R18.4 record fields present, parameters unfiltered.
+R18.1 also: a removal in a finally / catch-all handler around run() (abort by BaseException);  R18.2 also: the store of the value lies on every path to _finish_run_info.
 """
 from __future__ import annotations
 
